@@ -3,7 +3,8 @@
 CAP (strict) over url.c's parse/unparse/constructors: the scan cursor and every look-ahead stay inside the text,
 every component slice handed to the string constructors has a non-negative length and starts inside the text,
 and no local (the protocol / service lookup results) is read on a path on which it was never assigned, whatever
-the lookups return (found / not found are both explored).  Component exactness and the round trip are not decided."""
+the lookups return (found / not found are both explored).  W1/W2: parse and unparse agree on the component table, and every component that is present is emitted on every path
+(must-analysis over the nullness facts).  Component exactness and the round trip are not decided."""
 from .. import facts, expr as X
 from .. import nullness, flow
 from ..facts import walk
